@@ -90,6 +90,69 @@ def correspondences(tier, rng):
         b_, wb = draw_program(pre + prog + ["endchar"])
         return None if a_ == b_ else "%s %r draws %r, its generalisation draws %r" % (op, args, a_, b_)
     out.append(Corr("generalize", cases, impl_gen, oracle=oracle_gen))
+    # ---- the specialiser (phases 1-6) on generalised command lists, every maxstack / preserveTopology setting
+    from fontTools.cffLib.specializer import specializeCommands
+    def gen_segs():
+        Zv = lambda: rng.choice([0, 0, 0, 1, -1, 3, -4, 20, rng.randint(-300, 300)])
+        segs = []
+        k = rng.choice([1, 2, 3, 5, 8, 14, 30])
+        mode = rng.below(5)
+        for _ in range(rng.randint(1, k)):
+            t = rng.below(10)
+            if mode == 1: t = 1 + rng.below(3) if rng.chance(85) else t     # mostly lines
+            if mode in (2, 3): t = 4 + rng.below(6) if rng.chance(85) else t     # mostly curves
+            if mode == 4: t = rng.choice([1, 2, 4, 5, 6]) if rng.chance(92) else t
+            if t == 0: segs.append([0, Zv(), Zv()])
+            elif t <= 3:
+                a, b = Zv(), Zv()
+                if mode == 4 and rng.chance(90): a, b = a or 2, b or -2                 # general lines and curves: the r-operator combinations
+                elif rng.chance(50): a, b = rng.choice([(a, 0), (0, b), (a or 1, 0), (0, b or 1)])
+                segs.append([1, a, b])
+            else:
+                v = [Zv() for _ in range(6)]
+                # first / last control vectors: horizontal, vertical, zero or general, chained so that neighbours can combine
+                for pos in (0, 4):
+                    c = rng.below(5)
+                    if mode == 4 and rng.chance(90): c = 3; v[pos] = v[pos] or 5; v[pos + 1] = v[pos + 1] or -5
+                    if mode == 3 and segs and segs[-1][0] == 2 and pos == 0 and rng.chance(70):
+                        px, py = segs[-1][5], segs[-1][6]; c = 0 if py == 0 and px else 1 if px == 0 and py else c
+                    if c == 0: v[pos + 1] = 0; v[pos] = v[pos] or 7
+                    elif c == 1: v[pos] = 0; v[pos + 1] = v[pos + 1] or -7
+                    elif c == 2: v[pos] = v[pos + 1] = 0
+                segs.append([2] + v)
+        return segs
+    SOPS = {"rmoveto": 0, "hmoveto": 1, "vmoveto": 2, "rlineto": 3, "hlineto": 4, "vlineto": 5, "rrcurveto": 6, "hhcurveto": 7,
+            "vvcurveto": 8, "hvcurveto": 9, "vhcurveto": 10, "rcurveline": 11, "rlinecurve": 12}
+    NAMES = {0: "rmoveto", 1: "rlineto", 2: "rrcurveto"}
+    scases = []
+    for _ in range(N(tier, 3000, 40000)):
+        scases.append((rng.chance(35), rng.choice([0, 5, 7, 10, 13, 14, 20, 48, 48, 48, 513]), gen_segs()))
+    def impl_spec(x):
+        pt, ms, segs = x
+        def go():
+            cmds = [(NAMES[s_[0]], list(s_[1:])) for s_ in segs]
+            outc = specializeCommands(cmds, generalizeFirst=False, preserveTopology=pt, maxstack=ms)
+            return [(SOPS[o], [int(v) for v in a]) for o, a in outc]
+        return res(go)
+    def oracle_spec(x):
+        """the PROPERTY on the implementation: the specialised commands fill what the generalised ones fill"""
+        pt, ms, segs = x
+        cmds = [(NAMES[s_[0]], list(s_[1:])) for s_ in segs]
+        try:
+            outc = specializeCommands(cmds, generalizeFirst=False, preserveTopology=pt, maxstack=ms)
+        except Exception as e:
+            return "specializeCommands raised %r" % (e,)
+        def prog(cl):
+            p_ = []
+            for o, a in cl: p_ += list(a) + [o]
+            return p_
+        pre = [0, 0, "rmoveto"]
+        try:
+            a_, _ = draw_program(pre + prog(cmds) + ["endchar"]); b_, _ = draw_program(pre + prog(outc) + ["endchar"])
+        except Exception as e:
+            return "the interpreter raised %r on %r" % (e, outc)
+        return None if G.fill_canon(a_) == G.fill_canon(b_) else "specialised %r draws %r, generalised draws %r" % (outc, b_, a_)
+    out.append(Corr("specialize", scases, impl_spec, oracle=oracle_spec))
     return out
 
 def gen_program(rng, width=True):
